@@ -65,7 +65,14 @@ impl Kind {
 pub enum Release {
     /// nothing: collect all requests first (only for pipelines of small bodies)
     CollectAll,
+    /// read_to_end into an empty Vec
     ReadToEof,
+    /// one read with a buffer of exactly the body length, then a read that returns 0
+    ReadExactThenZero,
+    /// reads with buffers whose size divides the body length, until one returns 0
+    ReadDividingBlocks,
+    /// one byte at a time until a read returns 0
+    ReadBytewise,
     Respond,
     Drop,
 }
@@ -85,6 +92,9 @@ impl Sc {
             kinds: v["kinds"].as_array().map(|a| a.iter().map(|k| Kind::from_str(k.as_str().unwrap_or(""))).collect()).unwrap_or_default(),
             release: match v["release"].as_str() {
                 Some("ReadToEof") => Release::ReadToEof,
+                Some("ReadExactThenZero") => Release::ReadExactThenZero,
+                Some("ReadDividingBlocks") => Release::ReadDividingBlocks,
+                Some("ReadBytewise") => Release::ReadBytewise,
                 Some("Respond") => Release::Respond,
                 Some("Drop") => Release::Drop,
                 _ => Release::CollectAll,
@@ -130,6 +140,27 @@ pub fn body(sc: Sc, obs: Arc<Mutex<O>>) {
             Release::ReadToEof => {
                 let mut sink = Vec::new();
                 let _ = rq.as_reader().read_to_end(&mut sink);
+                held.push(rq);
+            }
+            Release::ReadExactThenZero | Release::ReadDividingBlocks | Release::ReadBytewise => {
+                let len = if *k == Kind::Cl1025 { 1025 } else { 10 };
+                let block = match sc.release {
+                    Release::ReadExactThenZero => len,
+                    Release::ReadDividingBlocks => 5,
+                    _ => 1,
+                };
+                let mut buf = vec![0u8; block];
+                let mut got = 0usize;
+                // "read to its end": until a read reports end-of-stream
+                loop {
+                    match rq.as_reader().read(&mut buf) {
+                        Ok(0) | Err(_) => break,
+                        Ok(n) => got += n,
+                    }
+                    if got > len {
+                        break;
+                    }
+                }
                 held.push(rq);
             }
             Release::Respond => {
@@ -218,7 +249,7 @@ fn items(tier: Tier) -> &'static Vec<(Sc, u32)> {
             if kinds.iter().all(|k| k.small()) {
                 v.push((Sc { kinds, release: Release::CollectAll }, bound));
             } else {
-                for r in [Release::ReadToEof, Release::Respond, Release::Drop] {
+                for r in [Release::ReadToEof, Release::ReadExactThenZero, Release::ReadDividingBlocks, Release::ReadBytewise, Release::Respond, Release::Drop] {
                     v.push((Sc { kinds: kinds.clone(), release: r }, bound));
                 }
             }
@@ -269,7 +300,7 @@ impl Check for C11 {
     }
     fn rule(&self, tier: Tier) -> String {
         format!(
-            "pipelines of n = 2..{} requests over body kinds {{none, Content-Length 1 / 1024 / 1025, chunked 10}} and n = {}..8 over {{none, Content-Length 1024}}, sent in one piece; application program: pipelines whose bodies are all absent or <= 1024 bytes: collect all n requests with recv() before answering any (a request that does not become available leaves the application blocked: deadlock report = violation); otherwise a request with a larger or chunked body is read to its end / answered / dropped and then the successor is waited for; {} scenarios, all schedules with at most 1 deviation (strict) for n <= {}, default schedule beyond; non-trivial = all",
+            "pipelines of n = 2..{} requests over body kinds {{none, Content-Length 1 / 1024 / 1025, chunked 10}} and n = {}..8 over {{none, Content-Length 1024}}, sent in one piece; application program: pipelines whose bodies are all absent or <= 1024 bytes: collect all n requests with recv() before answering any (a request that does not become available leaves the application blocked: deadlock report = violation); otherwise a request with a larger or chunked body is read to its end (read_to_end; one read of exactly the body length then a read returning 0; blocks dividing the length; byte by byte) / answered / dropped and then the successor is waited for; {} scenarios, all schedules with at most 1 deviation (strict) for n <= {}, default schedule beyond; non-trivial = all",
             if full(tier) { 4 } else { 3 }, if full(tier) { 5 } else { 4 }, items(tier).len(), if full(tier) { 3 } else { 2 }
         )
     }
